@@ -56,7 +56,7 @@ Definition entry_validate (c : kconfig) : list bytes :=
 Definition entry_match (c : kconfig) (req : bytes) : list bytes :=
   match parse_ingresses c with
   | None => [tc 69]
-  | Some ps => [hex (matching_path ps req)]
+  | Some ps => [hex (matching_path (cf_seg_prefix c) ps req)]
   end.
 
 (* cret: respondError on an arbitrary retry-cookie value: value written, auto-retry? *)
@@ -134,10 +134,11 @@ Definition entry_counter (evs : list revent) : list bytes :=
 Definition entry_rl (c : kconfig) (gaps : list Z) : list bytes := map tb (rl_run c None 0 gaps).
 
 Definition ck_config (secure : bool) (samesite prefix : bytes) (ingresses : list bytes) (sso : bool)
-           (domain name : bytes) (legacy rl : bool) (logins window : Z) : kconfig :=
+           (domain name : bytes) (legacy rl : bool) (logins window : Z) (seg_prefix rl_ceil : bool) : kconfig :=
   {| cf_secure := secure; cf_samesite := samesite; cf_prefix := prefix; cf_ingresses := ingresses;
      cf_sso_server := sso; cf_sso_domain := domain; cf_sso_name := name; cf_legacy := legacy;
-     cf_rl_enabled := rl; cf_rl_logins := logins; cf_rl_window := window |}.
+     cf_rl_enabled := rl; cf_rl_logins := logins; cf_rl_window := window;
+     cf_seg_prefix := seg_prefix; cf_rl_ceil := rl_ceil |}.
 
 Definition ck_origin (https : bool) (host path : bytes) : origin := {| u_https := https; u_host := host; u_path := path |}.
 Definition ck_breq (ep : kendpoint) (path : bytes) (prompt : bool) : breq := {| q_ep := ep; q_path := path; q_prompt := prompt |}.
